@@ -38,7 +38,7 @@ PROP = {
         "n_quick": 240,
         "n_thorough": 5000,
     }],
-    "rule": 'suite oracle: each case = a branch of the block-1 state of one real ExocoreApp with generated oracle params (1-3 feeders, intervals 2*MaxNonce..10, start before/at/after the case, optional EndBlock, MaxNonce 1-3, MaxDetID 1/2/5, MaxSizePrices 1/2/3/100, thresholds 2/3 1/2 3/4 1/1), generated initial price lists (consistent / off by one / latest missing / absent), 3-6 validators from power pools that contain exactly-2/3 and +-1 splits, 8-29 blocks of signed create-price txs (valid, every single admission/counting clause violated in turn, boundary values, duplicates, equivocation, outsiders, 1000/1001-byte txs, two-message txs; in a quarter of the cases a real MsgUpdateParams in the middle of the case: new feeder for a new token / EndBlock for a running feeder) run through the real ante chain + message handler + oracle EndBlock with injected validator-set updates; 4 directed scenarios first; suite abci: the same generators on one continuous chain through app.DeliverTx/EndBlock/Commit/BeginBlock; suite kernels: BigIntList.Median and ExceedsThreshold on boundary-biased inputs. distinct = distinct sha1 of the case term; non-trivial = at least one submission was counted',
+    "rule": 'suite oracle: each case = a branch of the block-1 state of one real ExocoreApp with generated oracle params (1-3 feeders with a random feeder->token assignment, in a third of the multi-feeder cases a successor feeder continuing the token of an ended feeder, intervals 2*MaxNonce..10, start before/at/after the case, optional EndBlock, MaxNonce 1-3, MaxDetID 1/2/5, MaxSizePrices 1/2/3/100, thresholds 2/3 1/2 3/4 1/1), generated initial price lists (consistent / off by one / latest missing / absent), 3-6 validators from power pools that contain exactly-2/3 and +-1 splits, 8-29 blocks of signed create-price txs (valid, every single admission/counting clause violated in turn, boundary values, duplicates, equivocation, outsiders, 1000/1001-byte txs, two-message txs; in a quarter of the cases a real MsgUpdateParams in the middle of the case: new feeder for a new token / EndBlock for a running feeder) run through the real ante chain + message handler + oracle EndBlock with injected validator-set updates; 4 directed scenarios first; suite abci: the same generators on one continuous chain through app.DeliverTx/EndBlock/Commit/BeginBlock; suite kernels: BigIntList.Median and ExceedsThreshold on boundary-biased inputs. distinct = distinct sha1 of the case term; non-trivial = at least one submission was counted',
     "explanation": "Coq theorems about the executable model of the oracle (threshold, median, one final price per round for ALL message sequences; carry-forward; round numbering for ALL block/tx histories of one feeder with single-message txs; refutation witnesses for the full no-gap statement and for invalid intervals). The model is tied to the code by running the real ante chain, message server and EndBlock (and, in suite abci, the real ABCI path) on generated histories and comparing prices, nonce rows and the verif-hook dump of the in-memory aggregator after every tx and block; the property's own statement (writes only with a logged super-majority on one det-ID value, one write per round, carried price = previous, closed-form round numbering, retention) is evaluated on the implementation's observations independently of the model's step functions.",
     "trusted_base": KERNEL_TB + ['modelled, not verified: x/oracle/keeper/aggregator/{context,worker,filter,calculator,aggregator}.go, keeper/common/types.go, keeper/{prices,nonce,msg_server_create_price}.go, module.go EndBlock, the oracle branches of app/ante/cosmos/{txsize_gas,sigverify}.go (hand-written Gallina transcription in coq/Oracle/Model.v, tied by differential execution)', 'verif hook (add-only, build tag verif): x/oracle/keeper/aggregator/zz_verif_c12_dump.go, keeper/common/zz_verif_c12_set.go, keeper/zz_verif_c12_dump.go - canonical sorted dump of the unexported aggregator context', 'suite oracle emulates baseapp.runTx (ante cache written iff ante ok, message cache written iff all messages ok, panics recovered) around the real ante handler and message handler; suite abci runs the real baseapp and agrees with it (0 mismatches)', 'validator-set updates of suite oracle are injected into the dogfood store (StakingKeeper.SetValidatorUpdates) instead of being produced by a dogfood epoch', 'scope of the model: DefaultParams source/rule tables (one deterministic source); model params are constant inside a case - parameter updates are exercised (MsgUpdateParams adding a feeder / setting an EndBlock, token registration) by running the model with the post-update params, which must and does agree because such updates have no effect before the new start / end block; updates of MaxNonce, thresholds, MaxSizePrices or of token decimals are not exercised; no CheckTx-mode aggregator copy, numeric price strings only, one signer per tx'],
     "assumptions": ['params_valid (Interval >= 2*MaxNonce etc.) is a hypothesis of the round-numbering theorem; its reachability (token registration stores params without Validate) is not decided here - C12_no_gap_needs_valid_interval_refuted shows it is necessary', 'per-validator values are equal whenever a price is final in the modelled single-source configuration; Median is therefore also checked on its own (suite kernels)', 'the repaired signature check (fix-c10-oracle-sigverify.patch, group gJ) is part of the tree this package models'],
